@@ -129,6 +129,38 @@ Proof.
   intros c st t l args st' p EN E. destruct (variadic_exports c st t l args st' EN E) as [X _]. rewrite X. apply count_exported.
 Qed.
 
+(* a burst: n emissions in a row through a batch pipeline - every configured processor exactly n more, each entry the
+   record as supplied, in order; nothing is handed over twice, nothing is lost *)
+Fixpoint repeat_app {A} (l : list A) (n : nat) : list A := match n with 0 => [] | S n' => l ++ repeat_app l n' end.
+
+Lemma emit_n_exports : forall c l k rr n st, k <= length (s_procs st) ->
+  s_exp (emit_n c st l (children (seq 0 k) rr) n) = s_exp st ++ repeat_app (exported st l k rr) n /\
+  s_procs (emit_n c st l (children (seq 0 k) rr) n) = s_procs st /\ s_mem (emit_n c st l (children (seq 0 k) rr) n) = s_mem st /\
+  s_slots (emit_n c st l (children (seq 0 k) rr) n) = s_slots st.
+Proof.
+  induction n as [|n IH]; intros st K; cbn [emit_n repeat_app]; [rewrite app_nil_r; repeat split|].
+  destruct (IH (emit_children c st l (children (seq 0 k) rr))) as (E1 & E2 & E3 & E4); [exact K|].
+  rewrite E1, E2, E3, E4. cbn [emit_children s_exp s_procs s_mem s_slots]. repeat split.
+  rewrite <- app_assoc. f_equal. f_equal.
+  - rewrite map_children_children, fan_out_seq by lia. rewrite Nat.sub_0_r. reflexivity.
+Qed.
+
+Theorem burst_each_processor_exactly_n : forall c st t l n flush args st' p,
+  logger_enabled c l = true -> lstep c st (LBurst t l n flush args) = Ok st' ->
+  s_exp st' = s_exp st ++ repeat_app (exported st l (length (s_procs st)) (build (active_ident c st t) args)) n /\
+  count_for p (s_exp st') = count_for p (s_exp st) + (if p <? length (s_procs st) then n else 0).
+Proof.
+  intros c st t l n flush args st' p EN E. cbn [lstep] in E. destruct (negb _); [discriminate|]. rewrite EN in E.
+  inversion E; subst st'; clear E. cbn [with_out s_exp].
+  unfold create_multi, enum_from. fold (children (seq 0 (length (s_procs st))) (rec_created (active_ident c st t))).
+  rewrite map_children_children. fold (apply_args args (rec_created (active_ident c st t))). fold (build (active_ident c st t) args).
+  destruct (emit_n_exports c l (length (s_procs st)) (build (active_ident c st t) args) n st (le_n _)) as (E1 & _).
+  rewrite E1. split; [reflexivity|]. clear E1.
+  generalize (s_exp st) as e. induction n as [|n IH]; intro e; cbn [repeat_app].
+  - rewrite app_nil_r. destruct (p <? length (s_procs st)); lia.
+  - rewrite app_assoc, IH, count_exported. destruct (p <? length (s_procs st)); lia.
+Qed.
+
 (* ------------------------------------------------------------------ a null record is ignored *)
 Theorem null_ignored : forall c st t l st',
   (lstep c st (LEmitNull t l) = Ok st' -> s_exp st' = s_exp st /\ s_slots st' = s_slots st) /\
@@ -151,7 +183,8 @@ Qed.
 (* ------------------------------------------------------------------ a disabled logger emits nothing *)
 Definition emits_via (o : lop) : option nat :=
   match o with
-  | LEmit _ l _ | LEmitNull _ l | LEmitV _ l _ | LEmitRV _ l _ _ | LLog _ l _ _ _ _ _ _ _ | LLevel _ l _ _ => Some l
+  | LEmit _ l _ | LEmitNull _ l | LEmitV _ l _ | LEmitRV _ l _ _ | LLog _ l _ _ _ _ _ _ _ | LLevel _ l _ _
+  | LBurst _ l _ _ _ => Some l
   | _ => None
   end.
 
@@ -199,6 +232,8 @@ Proof.
   - destruct (nth_error (s_mem st) a) as [old|]; [|discriminate]. destruct (same_shape (s_mem st) old b); [|discriminate]. inversion E; subst. reflexivity.
   - inversion E; subst. reflexivity.
   - destruct (nth_error (c_loggers c) l) as [[[[? ?] ?] ?]|]; [|discriminate]. inversion E; subst. reflexivity.
+  - destruct D as [D|[l0 [D EN]]]; [discriminate|]. inversion D; subst l0.
+    destruct (negb _); [discriminate|]. rewrite EN in E. inversion E; subst. reflexivity.
 Qed.
 
 (* over every operation sequence in which every emitting call goes through a disabled logger *)
